@@ -216,7 +216,7 @@ Qed.
 
 Lemma ch_sort_same_shape s o k r : same_shape s (fst (ch_sort s o k r)).
 Proof.
-  unfold ch_sort. destruct k; try apply same_shape_refl;
+  unfold ch_sort. destruct (none_clash s o k); [apply same_shape_refl|]. destruct k; try apply same_shape_refl;
     (destruct (keys_of _ _ _) as [kl| |c]; [apply set_kids_same_shape|apply same_shape_refl..]).
 Qed.
 
